@@ -1,8 +1,7 @@
 /-
   C10 — resampling reads return exact, uniform bucket means of the range.
 -/
-import BS.Proofs.Region
-import BS.Impl.Data
+import BS.Proofs.ReadRange
 
 namespace BS.Props.C10
 open BS BS.Impl
@@ -29,6 +28,22 @@ theorem resampling_read_of_region (p B : Nat) (hB0 : 0 < B) (hB : B ≤ 2^32) (c
   rw [readRegion_canonical p cb samplerProc _ e es hv]
   obtain ⟨s', h1, h2⟩ := fold_sampler_init p B hB0 hB (e :: es)
   simp [h1, h2]
+
+/-- **`read_n` without caches, every pair of bounds**: under the session invariant, for
+n ≥ 1 and a file of at most 2^32 lines, the result is the list of uniform bucket means — one
+bucket size `b ≥ 1`, first bucket starting at the first line in range, only a trailing
+incomplete bucket dropped — of exactly the lines a full read of the range returns, and has at
+most `2n` elements; when no line is in range it is empty or a range error.  No sum
+overflows: timestamps are summed in unbounded (in the code: 128-bit) arithmetic and the
+value sum stays below 2^64 because `b ≤ 2^32`. -/
+theorem read_n_of_any_range (hdr ihdr : Bytes) (dir : Dir) (s : Sess) (e : Entry) (es : List Entry)
+    (hinv : SessInv hdr ihdr dir s (e :: es)) (n : Nat) (hn : 1 ≤ n) (sb eb : Bound)
+    (hsize : (Spec.encode s.d.p (e :: es)).length / lineSize s.d.p ≤ 2^32) :
+    let want := Spec.filterBounds (toSpecBound sb) (toSpecBound eb) (e :: es)
+    (∃ b, 1 ≤ b ∧ apiReadN dir s n sb eb = .ok (Spec.bucketMeans b (Spec.linMean s.d.p) want) ∧
+        (Spec.bucketMeans b (Spec.linMean s.d.p) want).length ≤ 2 * n) ∨
+    (want = [] ∧ ∃ c, apiReadN dir s n sb eb = .error (.err ("InvalidRange/" ++ c))) :=
+  readN_range_nocache hdr ihdr dir s e es hinv n hn sb eb hsize
 
 /-- bucket means never return more buckets than `len / B` -/
 theorem bucketMeans_length (B : Nat) (mean : List Bytes → Bytes) (xs : List Entry) (hB : 0 < B) :
